@@ -20,6 +20,8 @@
 #include <signal.h>
 #include "public/module/ctx.h"
 #include "public/module/mod.h"
+#include <sys/eventfd.h>
+#include <sys/timerfd.h>
 #include "ctx.h"      /* white-box reads only: ctx->stats.running_modules, ev_src_t.mod/type (attribution of poll events) */
 
 #define NM 4
@@ -28,12 +30,13 @@ static char LN[NM][8];                 /* logical names as in the spec ("A", "B"
 static char RN[NM][16];                /* real names registered with the library (chosen so that the table order is LN order) */
 static m_mod_t *H[NM];
 static char hooks[NM][8], flags[NM][16];
-static int ctx_persist, cap = 2, maxpay = 1;
+static int ctx_persist, cap = 2, maxpay = 1, nkeys = 1;
 
 /* ---- payloads ---- */
 #define NP 8
 static struct { void *ptr; int watch; int autofree; int live; } PAY[NP + 1];
 
+static int errno_to_leave;
 /* ---- cursor ---- */
 static const int *P; static int PN, cursor, cur_state, depth, failed;
 static int last_ret;
@@ -43,6 +46,8 @@ static int in_program;
 #define MAXFD 1024
 static unsigned char fd_lib[MAXFD];     /* 1 = opened by the library and still open */
 static int pipe_peer[MAXFD];            /* write end -> read end */
+static int ufd_r_[4] = {-1, -1, -1, -1};
+#define ufd_r ufd_r_
 static int lib_fds_open(void) { int n = 0; for (int i = 0; i < MAXFD; i++) n += fd_lib[i]; return n; }
 
 int __real_pipe(int fds[2]);
@@ -65,6 +70,7 @@ static int double_close;
 int __wrap_close(int fd) {
     if (in_program && fd >= 0 && fd < MAXFD) {
         if (fd_lib[fd]) { fd_lib[fd] = 0; pipe_peer[fd] = 0; }
+        for (int k = 1; k <= 3; k++) if (ufd_r_[k] == fd) ufd_r_[k] = -2;      /* a user descriptor closed by the library (auto-close) */
     }
     int r = __real_close(fd);
     if (in_program && r != 0) double_close++;
@@ -80,35 +86,72 @@ ssize_t __wrap_write(int fd, const void *buf, size_t n) {
     return __real_write(fd, buf, n);
 }
 
+/* ---- virtual time: timerfds are eventfds that the program fires (TmrFire / tick) ---- */
+int __real_timerfd_create(int clockid, int flags);
+int __wrap_timerfd_create(int clockid, int flags) {
+    if (!in_program) return __real_timerfd_create(clockid, flags);
+    int fd = eventfd(0, EFD_NONBLOCK | EFD_CLOEXEC);
+    if (fd >= 0 && fd < MAXFD) fd_lib[fd] = 1;
+    return fd;
+}
+static unsigned long long last_settime_ns;
+int __real_timerfd_settime(int fd, int flags, const struct itimerspec *nv, struct itimerspec *ov);
+int __wrap_timerfd_settime(int fd, int flags, const struct itimerspec *nv, struct itimerspec *ov) {
+    if (!in_program) return __real_timerfd_settime(fd, flags, nv, ov);
+    last_settime_ns = (unsigned long long)nv->it_value.tv_sec * 1000000000ULL + nv->it_value.tv_nsec;
+    return 0;
+}
+
+/* ---- user descriptors (fd sources): key -> pipe owned by the program ---- */
+#define NKEY 3
+static int ufd_w[NKEY + 1];
+static void ufd_open(int k) { int p[2]; if (__real_pipe(p) == 0) { ufd_r[k] = p[0]; ufd_w[k] = p[1]; fcntl(p[0], F_SETFL, O_NONBLOCK); fcntl(p[1], F_SETFL, O_NONBLOCK); } }
+static int ufd_is_open(int k) { return ufd_r[k] >= 0; }
+static const unsigned long long TMR_NS[NKEY + 1] = {0, 1000000ULL, 5000000000ULL, 5000000001ULL};
+
 /* ---- poll control ---- */
-static int batch[NM], nbatch, batch_armed;
+static struct { int m; char kind; int key; } batch[8];
+static int nbatch, batch_armed;
 static char ready_seen[64];
 static int poll_calls;
 static int midx(const char *real) { if (!real) return -1; for (int i = 0; i < nmods; i++) if (!strcmp(RN[i], real)) return i; return -1; }
 
+static int src_matches(ev_src_t *src, int m, char kind, int key) {
+    if (!src || !src->mod || midx(m_mod_name(src->mod)) != m) return 0;
+    if (kind == 'p') return src->type == M_SRC_TYPE_PS;
+    if (kind == 'f') return src->type == M_SRC_TYPE_FD && src->fd_src.fd == ufd_r[key];
+    if (kind == 't') return src->type == M_SRC_TYPE_TMR && !(src->flags & (1 << 7)) && src->tmr_src.its.ns == TMR_NS[key];
+    return 0;
+}
 int __wrap_epoll_wait(int epfd, struct epoll_event *events, int maxevents, int timeout) {
     if (!in_program) return __real_epoll_wait(epfd, events, maxevents, timeout);
     struct epoll_event tmp[64];
     int n = __real_epoll_wait(epfd, tmp, 64, 0);
     poll_calls++;
-    /* the really-ready set, as module mailboxes */
-    int rdy[NM] = {0};
+    /* the really-ready set (mailboxes, user descriptors, timers), rendered like the spec's Ready() */
     size_t k = 0;
     ready_seen[0] = 0;
-    for (int i = 0; i < n; i++) {
-        ev_src_t *src = tmp[i].data.ptr;
-        int mi = src && src->mod ? midx(m_mod_name(src->mod)) : -1;
-        if (mi >= 0 && src->type == M_SRC_TYPE_PS) rdy[mi] = 1;
+    for (int mi = 0; mi < nmods; mi++) {
+        for (int i = 0; i < n; i++) if (src_matches(tmp[i].data.ptr, mi, 'p', 0)) { k += snprintf(ready_seen + k, sizeof ready_seen - k, "%sp0,", LN[mi]); break; }
+        for (int key = 1; key <= NKEY; key++) for (int i = 0; i < n; i++) if (src_matches(tmp[i].data.ptr, mi, 'f', key)) { k += snprintf(ready_seen + k, sizeof ready_seen - k, "%sf%d,", LN[mi], key); break; }
+        for (int key = 1; key <= NKEY; key++) for (int i = 0; i < n; i++) if (src_matches(tmp[i].data.ptr, mi, 't', key)) { k += snprintf(ready_seen + k, sizeof ready_seen - k, "%st%d,", LN[mi], key); break; }
     }
-    for (int i = 0; i < nmods; i++) if (rdy[i]) k += snprintf(ready_seen + k, sizeof ready_seen - k, "%s", LN[i]);
     if (!batch_armed) return 0;
     batch_armed = 0;
     int out = 0;
     for (int b = 0; b < nbatch && out < maxevents; b++)
-        for (int i = 0; i < n; i++) {
-            ev_src_t *src = tmp[i].data.ptr;
-            if (src && src->mod && src->type == M_SRC_TYPE_PS && midx(m_mod_name(src->mod)) == batch[b]) { events[out++] = tmp[i]; break; }
+        for (int i = 0; i < n; i++)
+            if (src_matches(tmp[i].data.ptr, batch[b].m, batch[b].kind, batch[b].key)) { events[out++] = tmp[i]; break; }
+    /* a one-shot registration is disarmed by the kernel once reported: what this wrapper did not pass on must be re-armed */
+    for (int i = 0; i < n; i++) {
+        int passed = 0;
+        for (int o = 0; o < out; o++) if (events[o].data.ptr == tmp[i].data.ptr) passed = 1;
+        ev_src_t *src = tmp[i].data.ptr;
+        if (!passed && src && (src->flags & M_SRC_ONESHOT)) {
+            struct epoll_event ev = {.events = EPOLLIN | EPOLLONESHOT, .data.ptr = src};
+            epoll_ctl(epfd, EPOLL_CTL_MOD, src->fd_src.fd, &ev);
         }
+    }
     errno = 0;
     return out;
 }
@@ -150,6 +193,17 @@ static void project(char *buf, size_t n, const char *topdesc) {
             k += snprintf(buf + k, n - k, "|%s:%s:%d:%d:%d:%d:%d", LN[i], stname(H[i]), mailbox_len(H[i]), (int)m_queue_len(H[i]->batch.events),
                           (int)m_queue_len(H[i]->stashed), (int)m_stack_len(H[i]->recvs), (int)(H[i]->batch.len > 99 ? 99 : H[i]->batch.len));
         else k += snprintf(buf + k, n - k, "|%s:%s:0:0:0:0:0", LN[i], stname(H[i]));
+    /* source counts per kind through the public API (subscriptions, fd, tmr, sgn, path, pid, task, thresh), and the total */
+    k += snprintf(buf + k, n - k, "|src:");
+    for (int i = 0; i < nmods; i++) {
+        k += snprintf(buf + k, n - k, "%s", i ? "," : "");
+        if (!H[i] || m_mod_state(H[i]) == M_MOD_ZOMBIE) { k += snprintf(buf + k, n - k, "-"); continue; }
+        if (c) {
+            for (int t = M_SRC_TYPE_PS; t <= M_SRC_TYPE_END; t++) { long v = (long)m_mod_src_len(H[i], t); k += snprintf(buf + k, n - k, "%ld%s", v < 0 ? -1 : v, t < M_SRC_TYPE_END ? "." : ""); }
+        } else k += snprintf(buf + k, n - k, "hidden");
+    }
+    k += snprintf(buf + k, n - k, "|ufd:");
+    for (int key = 1; key <= nkeys; key++) k += snprintf(buf + k, n - k, "%c", ufd_is_open(key) ? 'o' : 'c');
     k += snprintf(buf + k, n - k, "|pay:");
     for (int p = 1; p <= maxpay; p++) k += snprintf(buf + k, n - k, "%c", !PAY[p].live ? 'u' : vp_watch_freed[PAY[p].watch] ? (vp_watch_freed[PAY[p].watch] > 1 ? '2' : 'f') : 'l');
     snprintf(buf + k, n - k, "|d%d|%s", depth, topdesc);
@@ -183,11 +237,17 @@ static void compare(const char *topdesc, int check_ret) {
     project(proj, sizeof proj, topdesc);
     /* inside a DENY_CTX callback the context is hidden from the driver: compare the rest */
     const char *exp = st->proj;
-    if (!strncmp(proj, "ctx:hidden", 10)) { exp = strchr(exp, '|'); if (strcmp(strchr(proj, '|'), exp ? exp : "")) goto bad; }
+    if (!strncmp(proj, "ctx:hidden", 10)) {
+        /* compare everything but the ctx and src fields */
+        const char *a = strstr(proj, "|ufd:"), *b = strstr(exp, "|ufd:");
+        const char *pa = strchr(proj, '|'), *pb = strchr(exp, '|');
+        const char *sa = strstr(proj, "|src:"), *sb = strstr(exp, "|src:");
+        if (!a || !b || !sa || !sb || strcmp(a, b) || (sa - pa) != (sb - pb) || strncmp(pa, pb, sa - pa)) goto bad;
+    }
     else if (strcmp(proj, exp)) goto bad;
     if (check_ret) {
-        char r[32]; snprintf(r, sizeof r, "%d", last_ret);
-        if (strcmp(r, st->obs)) fail(canon_sig(sig, sizeof sig, "ret"), "return value: expected %s got %s (state %s)", st->obs, r, proj);
+        char r[32]; snprintf(r, sizeof r, "%d;", last_ret);
+        if (strncmp(r, st->obs, strlen(r))) fail(canon_sig(sig, sizeof sig, "ret"), "return value: expected %s got %s (state %s)", st->obs, r, proj);
     }
     return;
 bad:
@@ -217,6 +277,12 @@ static int evdesc_cb(void *up, void *data) {
         int si = ps->sender ? lidx_of_mod(ps->sender) : -1;
         snprintf(evdesc + k, sizeof evdesc - k, "%s%d/%s/%s/%d/%s", k ? ";" : "", pay_id(ps->data), ps->sender ? (si >= 0 ? LN[si] : "?") : "ctx",
                  logical_topic(ps->topic, tb, sizeof tb), (int)ps->system, evt->userdata ? (const char *)evt->userdata : "");
+    } else if (evt->type == M_SRC_TYPE_FD && evt->fd_evt) {
+        int key = 0; for (int q = 1; q <= NKEY; q++) if (ufd_r[q] == evt->fd_evt->fd) key = q;
+        snprintf(evdesc + k, sizeof evdesc - k, "%s0/fd//0/%s", k ? ";" : "", evt->userdata ? (const char *)evt->userdata : "");
+        (void)key;
+    } else if (evt->type == M_SRC_TYPE_TMR && evt->tmr_evt) {
+        snprintf(evdesc + k, sizeof evdesc - k, "%s0/tmr//0/%s", k ? ";" : "", evt->userdata ? (const char *)evt->userdata : "");
     } else snprintf(evdesc + k, sizeof evdesc - k, "%stype%d", k ? ";" : "", evt->type);
     return 0;
 }
@@ -243,7 +309,7 @@ static bool enter_cb(m_mod_t *self, const char *kind, const m_queue_t *evts) {
     while (!failed) {
         if (cursor >= PN) { fail("core-program-ended-in-callback", "program ended inside a callback"); break; }
         gw_edge *e = &gw_edges[P[cursor]];
-        if (!strcmp(e->act, "CbReturn")) { cursor++; cur_state = e->dst; v = e->args[0] != 0; break; }
+        if (!strcmp(e->act, "CbReturn")) { cursor++; cur_state = e->dst; v = e->args[0] != 0; errno = errno_to_leave; break; }
         exec_action(e);
     }
     depth--;
@@ -291,6 +357,7 @@ static m_mod_flags mflags_i(int i, int which) {
 }
 static m_mod_flags mflags(int i) { return mflags_i(i, 1); }
 
+static int is_env_action(const char *a) { return !strcmp(a, "FdReady") || !strcmp(a, "FdDrain") || !strcmp(a, "FdReopen") || !strcmp(a, "TmrFire") || !strcmp(a, "SetErrno"); }
 static void exec_action(gw_edge *e) {
     const char *a = e->act;
     char tb[64];
@@ -305,22 +372,27 @@ static void exec_action(gw_edge *e) {
     else if (!strcmp(a, "CtxFinalize")) r = m_ctx_finalize();
     else if (!strcmp(a, "CtxQuit")) r = m_ctx_quit((uint8_t)e->args[0]);
     else if (!strcmp(a, "Dispatch")) {
-        /* the batch: "[A;B]" = mailbox events of A then B */
+        /* the batch: "[[A;ps;0];[B;fd;1]]" = A's mailbox, then descriptor source 1 of B */
         nbatch = 0;
-        for (const char *c = e->sargs[0]; *c; c++) if (*c >= 'A' && *c <= 'Z') { char nm[2] = {*c, 0}; batch[nbatch++] = lidx(nm); }
+        for (const char *c = e->sargs[0]; *c && nbatch < 8; c++)
+            if (*c >= 'A' && *c <= 'Z' && c[1] == ';') {
+                char nm[2] = {*c, 0};
+                batch[nbatch].m = lidx(nm);
+                batch[nbatch].kind = c[2];                       /* p(s) f(d) t(mr) */
+                const char *q = strchr(c + 2, ';');
+                batch[nbatch].key = q ? atoi(q + 1) : 0;
+                nbatch++;
+                c = q ? q : c + 1;
+            }
         batch_armed = 1;
         int pc0 = poll_calls;
         ready_seen[0] = 0;
         r = m_ctx_dispatch();
         batch_armed = 0;
         if (!failed && poll_calls != pc0) {
-            /* the poll was really consulted: its ready set must be the spec's = RUNNING modules with a non-empty mailbox in the source state */
-            char exp[64]; size_t k = 0; exp[0] = 0;
-            for (int i = 0; i < nmods; i++) {
-                char key[32]; snprintf(key, sizeof key, "|%s:running:", LN[i]);
-                const char *q = strstr(gw_states[e->src].proj, key);
-                if (q && atoi(q + strlen(key)) > 0) k += snprintf(exp + k, sizeof exp - k, "%s", LN[i]);
-            }
+            /* the poll was really consulted: its ready set must be the spec's Ready() of the source state (second part of obs) */
+            const char *exp = strchr(gw_states[e->src].obs, ';');
+            exp = exp ? exp + 1 : "";
             if (strcmp(exp, ready_seen)) { char sig[160]; fail(canon_sig(sig, sizeof sig, "ready-set"), "sources reported ready by the real poll: {%s}, spec: {%s}", ready_seen, exp); return; }
         }
     }
@@ -354,6 +426,36 @@ static void exec_action(gw_edge *e) {
         m_src_flags pf = e->sargs[2][0] == 'L' ? M_SRC_PRIO_LOW : e->sargs[2][0] == 'H' ? M_SRC_PRIO_HIGH : M_SRC_PRIO_NORM;
         r = m_mod_ps_subscribe(H[m], real_topic(e->sargs[1], tb, sizeof tb), M_SRC_DUP | pf, tag);
     }
+    else if (!strcmp(a, "SrcRegister") || !strcmp(a, "SrcDeregister")) {
+        int reg = a[3] == 'R';
+        const char *kd = e->sargs[1];
+        int key = (int)e->args[2];
+        m_src_flags fl = 0;
+        if (reg && e->nargs > 3) { if (strstr(e->sargs[3], "os|->TRUE") || strstr(e->sargs[3], "os=1")) fl |= M_SRC_ONESHOT; if (strstr(e->sargs[3], "ac=1")) fl |= M_SRC_FD_AUTOCLOSE; }
+        static const char *kud[] = {"", "1", "2", "3"};           /* userdata = the key */
+        const void *ud = kud[key];
+        if (!strcmp(kd, "fd")) r = reg ? m_mod_src_register_fd(H[m], ufd_r[key], fl, ud) : m_mod_src_deregister_fd(H[m], ufd_r[key]);
+        else if (!strcmp(kd, "tmr")) { m_src_tmr_t t = {CLOCK_MONOTONIC, TMR_NS[key]}; r = reg ? m_mod_src_register_tmr(H[m], &t, fl, ud) : m_mod_src_deregister_tmr(H[m], &t); }
+        else if (!strcmp(kd, "sgn")) { m_src_sgn_t g = {key == 1 ? SIGUSR1 : SIGUSR2}; r = reg ? m_mod_src_register_sgn(H[m], &g, fl, ud) : m_mod_src_deregister_sgn(H[m], &g); }
+        else if (!strcmp(kd, "path")) { m_src_path_t pt = {key == 1 ? "/tmp" : "/", 0x2 /* IN_MODIFY */}; r = reg ? m_mod_src_register_path(H[m], &pt, fl, ud) : m_mod_src_deregister_path(H[m], &pt); }
+        else if (!strcmp(kd, "pid")) { m_src_pid_t pd = {key == 1 ? getpid() : getppid(), 0}; r = reg ? m_mod_src_register_pid(H[m], &pd, fl, ud) : m_mod_src_deregister_pid(H[m], &pd); }
+        else if (!strcmp(kd, "thr")) { m_src_thresh_t th = {key == 1 ? 1000000000ULL : 2ULL, key == 1 ? 2.0 : 1000000000.0}; r = reg ? m_mod_src_register_thresh(H[m], &th, fl, ud) : m_mod_src_deregister_thresh(H[m], &th); }
+        else { fail("core-unknown-kind", "driver does not know source kind %s", kd); return; }
+        keep = 1;
+    }
+    else if (!strcmp(a, "FdReady")) { char x = 'x'; r = __real_write(ufd_w[e->args[0]], &x, 1) == 1 ? 0 : -1; }
+    else if (!strcmp(a, "FdDrain")) { char buf[64]; while (read(ufd_r[e->args[0]], buf, sizeof buf) > 0); r = 0; }
+    else if (!strcmp(a, "FdReopen")) { __real_close(ufd_w[e->args[0]]); ufd_open((int)e->args[0]); r = 0; }
+    else if (!strcmp(a, "TmrFire")) {
+        /* find the (virtual) timer descriptor of that source and make it expire */
+        int key = (int)e->args[1];
+        r = -1;
+        m_itr_foreach(H[m]->srcs[M_SRC_TYPE_TMR], {
+            ev_src_t *src = m_itr_get(m_itr);
+            if (!(src->flags & (1 << 7)) && src->tmr_src.its.ns == TMR_NS[key] && r != 0) { uint64_t one = 1; r = __real_write(src->tmr_src.f.fd, &one, 8) == 8 ? 0 : -1; }
+        });
+    }
+    else if (!strcmp(a, "SetErrno")) { errno_to_leave = (int)e->args[0]; r = 0; }
     else if (!strcmp(a, "SetBatchSize")) r = m_mod_set_batch_size(H[m], (size_t)e->args[1]);
     else if (!strcmp(a, "Stash")) {
         nth_idx = (int)e->args[1]; nth_evt = NULL;
@@ -378,7 +480,8 @@ static void exec_action(gw_edge *e) {
         return;
     }
     const char *top = strrchr(st->proj, '|');
-    compare(top ? top + 1 : "-", 1);
+    compare(top ? top + 1 : "-", !is_env_action(a));
+    errno = errno_to_leave;          /* what user code leaves behind in errno must not matter to the library */
 }
 
 /* ---- one program ---- */
@@ -421,6 +524,8 @@ static int gw_run(const int *prog, int n) {
     memset(H, 0, sizeof H); memset(PAY, 0, sizeof PAY);
     vp_watch_reset();
     memset(fd_lib, 0, sizeof fd_lib);
+    errno_to_leave = 0;
+    for (int k2 = 1; k2 <= NKEY; k2++) { ufd_r[k2] = ufd_w[k2] = -1; if (k2 <= nkeys) ufd_open(k2); }
     cur_state = gw_edges[prog[0]].src;
     in_program = 1;
     alarm(20);
@@ -438,6 +543,7 @@ static int gw_run(const int *prog, int n) {
     }
     alarm(0);
     in_program = 0;
+    for (int k2 = 1; k2 <= NKEY; k2++) { if (ufd_r[k2] >= 0) __real_close(ufd_r[k2]); if (ufd_w[k2] >= 0) __real_close(ufd_w[k2]); }
     if (failed) return 1;
     /* programs end in a clean state: context released, no references held: nothing may be left */
     for (int p = 1; p <= NP; p++) if (PAY[p].ptr && !(PAY[p].autofree && vp_watch_freed[PAY[p].watch])) { vp_free(PAY[p].ptr); PAY[p].ptr = NULL; }
@@ -499,6 +605,7 @@ int main(int argc, char **argv) {
     if (getenv("VP_CAP")) cap = atoi(getenv("VP_CAP"));
     if (getenv("VP_MAXPAY")) maxpay = atoi(getenv("VP_MAXPAY"));
     if (getenv("VP_SETUP")) setup_name = getenv("VP_SETUP");
+    if (getenv("VP_NKEYS")) nkeys = atoi(getenv("VP_NKEYS"));
     vp_alloc_install();
     signal(SIGALRM, on_alarm);
     measure_order();
